@@ -6,7 +6,7 @@ PID = "C13"
 RULE = ("non-trivial = a nested 2-D/3-D/spherical case whose limit pairs are pairwise distinct (disjoint intervals per axis, so that a swapped "
         "argument or a swapped pair of limits is visible) with an integrand that is not symmetric under exchange of its arguments, or a 1-D case "
         "with reversed or equal limits, an explicit method_parameter, an unknown method name or a user function that is itself defined through an integral "
-        "(re-entrant call of the library); distinct by case text")
+        "(re-entrant call of the library), or a session of two or more calls made one after the other by one process; distinct by case text")
 LEVEL_TEXT = ("Theorems (Coq, all inputs, over the reals): the dispatch of Integrate(func,a,b,method,parameter) — each of the six names selects its back end "
               "with the stated parameter default (Gauss-Kronrod depth 5, Gauss-Legendre_2 30 points), every other name terminates when the limits differ, equal "
               "limits give 0 without a call of any back end or of the integrand, reversed limits negate the result; if the selected back end is exact on the "
@@ -384,6 +384,205 @@ def generate(rng, tier):
     cs += gen_reentrant(rng, big, P)
     cs += gen_ties(rng, big, P)
     cs += gen_sharp(rng, big)
+    cs += gen_parameters(rng, big)
+    cs += gen_structured(rng, big, P)
+    cs += gen_angles(rng, big, P)
+    cs += gen_sessions(rng, big, P)
+    return cs
+
+
+# ---- the whole range of explicit method_parameters: numbers of points of Gauss-Legendre_2 on a geometric ladder up to several thousand, on both
+#      sides of every power of two (smooth integrands: the accuracy clause applies from 20 points on), at every entry point where the cost allows it;
+#      Gauss-Kronrod recursion depths from 1 to 100; parameters of any sign and size for the methods that ignore them
+def gen_parameters(rng, big):
+    cs = []
+    ladder = [33, 50, 63, 64, 65, 100, 127, 128, 129, 200, 255, 256, 257, 258, 272, 300, 400, 511, 512, 513, 700, 1000, 1023, 1024, 1025]
+    ladder += [1500, 2047, 2048, 2049, 3000, 4096] if big else [rng.choice([1500, 2047, 2048, 2049])]
+    for n in ladder:
+        for orient in ((True, False) if big else (rng.random() < 0.5,)):
+            a, b = limits(rng, rng.randrange(3), orient)
+            if rng.random() < 0.3: a, b = a - 3.0, b - 3.0
+            f = rand_fac(rng, a, b)
+            cs.append(Case(f"named1d Gauss-Legendre_2 {n} {hx(a)} {hx(b)} {f.text('x')} # 1d {f.ann()}", ("named1d", "Gauss-Legendre_2", "points-ladder", "p")))
+    for n in ([65, 100, 129, 200, 257, 300] if big else [rng.choice([65, 100, 129])]):
+        (x1, x2), (y1, y2) = limits(rng, 0, rng.random() < 0.5), limits(rng, 1, rng.random() < 0.5)
+        fx, fy = rand_fac(rng, x1, x2), rand_fac(rng, y1, y2)
+        cs.append(Case(f"nested2d Gauss-Legendre_2 {n} {hx(x1)} {hx(x2)} {hx(y1)} {hx(y2)} {product_text([fx, fy], 'xy')} # nd {fx.ann()} {fy.ann()}", ("nested2d", "Gauss-Legendre_2", "points-ladder", "p")))
+    for n in ([33, 50, 64, 65] if big else [rng.choice([33, 50])]):
+        lims = [limits(rng, k, rng.random() < 0.5) for k in range(3)]
+        facs = [rand_fac(rng, *lims[k]) for k in range(3)]
+        flat = " ".join(hx(x) for lm in lims for x in lm)
+        cs.append(Case(f"nested3d Gauss-Legendre_2 {n} {flat} {product_text(facs, 'xyz')} # nd " + " ".join(f.ann() for f in facs), ("nested3d", "Gauss-Legendre_2", "points-ladder", "p")))
+        r1 = rng.uniform(0.0, 1.0); r2 = r1 + rng.uniform(0.5, 1.5)
+        if rng.random() < 0.5: r1, r2 = r2, r1
+        c1 = rng.uniform(-1.0, 0.5); c2 = rng.uniform(c1 + 0.2, 1.0); f1 = rng.uniform(0.0, 4.0); f2 = rng.uniform(f1 + 0.3, 6.28)
+        if rng.random() < 0.5: c1, c2 = c2, c1
+        if rng.random() < 0.5: f1, f2 = f2, f1
+        g = rng.choice([Fac("expdec", rng.uniform(0.3, 1.5)), Fac("rational", rng.uniform(0.1, 2.0)), Fac("gauss", rng.uniform(0.5, 3.0), 0.0)])
+        cs.append(Case(f"spherical Gauss-Legendre_2 {n} {hx(r1)} {hx(r2)} {hx(c1)} {hx(c2)} {hx(f1)} {hx(f2)} {radial_text(g)} # sphr {g.ann()}", ("spherical", "Gauss-Legendre_2", "points-ladder", "p")))
+    for d in [4, 5, 6, 10, 16, 20, 30, 50, 100]:
+        a, b = limits(rng, rng.randrange(3), rng.random() < 0.5)
+        f = rand_fac(rng, a, b)
+        cs.append(Case(f"named1d Gauss-Kronrod {d} {hx(a)} {hx(b)} {f.text('x')} # 1d {f.ann()}", ("named1d", "Gauss-Kronrod", "depth-ladder", "p")))
+    for method in ("Trapezoidal", "Gauss-Legendre", "Tanh-Sinh", "Adaptive-Simpson"):
+        for p in ([-1, -30, 30, 256, 300, 65536, 2147483647, -2147483648] if big else rng.sample([-1, -30, 30, 256, 300, 65536, 2147483647, -2147483648], 2)):
+            a, b = limits(rng, rng.randrange(3), rng.random() < 0.5)
+            f = rand_fac(rng, a, b, positive=(method == "Adaptive-Simpson"))
+            cs.append(Case(f"named1d {method} {p} {hx(a)} {hx(b)} {f.text('x')} # 1d {f.ann()}", ("named1d", method, "ignored-parameter", "p")))
+    return cs
+
+
+# ---- limits at structured values: intervals symmetric about the origin, starting or ending at exactly zero, with integer or pi-multiple ends,
+#      of width exactly one (requests a caller writes by hand), every method, both orientations
+def gen_structured(rng, big, P):
+    cs = []
+    PI = math.pi
+
+    def special():
+        a = rng.choice([0.5, 1.0, 1.5, 2.0, rng.uniform(0.3, 2.0)])
+        return rng.choice([(-a, a), (0.0, a), (-a, 0.0), (-0.0, a), (-1.0, 1.0), (0.0, 1.0), (0.0, PI), (-PI / 2, PI / 2), (0.0, PI / 2), (1.0, 2.0), (2.0, 3.0), (-2.0, -1.0),
+                           (float(math.floor(a * 3)), float(math.floor(a * 3)) + 1.0)])
+    for method in METHODS:
+        for _ in range(6 if big else 2):
+            a, b = special()
+            if rng.random() < 0.5: a, b = b, a
+            f = rand_fac(rng, a, b, positive=(method == "Adaptive-Simpson"))
+            p = P(method, rng.random() < 0.3)
+            cs.append(Case(f"named1d {method} {p} {hx(a)} {hx(b)} {f.text('x')} # 1d {f.ann()}", ("named1d", method, "structured-limits")))
+        if method in ("Trapezoidal", "Tanh-Sinh") and not big: continue
+        for _ in range(3 if big else 1):
+            lims = []
+            for k in range(2):
+                a, b = special()
+                lims.append((b, a) if rng.random() < 0.5 else (a, b))
+            if method == "Trapezoidal": facs = [rand_fac(rng, *lims[k], affine=True) for k in range(2)]
+            else: facs = [rand_fac(rng, *lims[k], positive=(method == "Adaptive-Simpson")) for k in range(2)]
+            p = P(method, rng.random() < 0.3)
+            flat = " ".join(hx(x) for lm in lims for x in lm)
+            cs.append(Case(f"nested2d {method} {p} {flat} {product_text(facs, 'xy')} # nd {facs[0].ann()} {facs[1].ann()}", ("nested2d", method, "structured-limits")))
+    return cs
+
+
+# ---- all angular sub-ranges of the spherical overload: azimuth ranges anywhere on the real line (negative, beyond 2 pi), starting at multiples of pi/2,
+#      of width exactly a quarter, a half, one or two full turns (the end formed in floating point as start + width, or as a multiple of pi itself) and of
+#      arbitrary width, cosine ranges over the whole, the upper, the lower half sphere and arbitrary ones: every orientation of every pair; radial profiles
+#      (value = (c2 - c1)(phi2 - phi1) times the radial integral) and direction-dependent integrands (closed form)
+def gen_angles(rng, big, P):
+    cs = []
+    PI = math.pi
+    methods = ["Gauss-Legendre", "Gauss-Legendre_2", "Gauss-Kronrod", "Adaptive-Simpson", "Gauss-Legendre", "Gauss-Legendre_2"] + (["Tanh-Sinh", "Trapezoidal"] if big else [])
+    count = 0
+    for method in methods:
+        for _ in range(8 if big and method not in ("Tanh-Sinh", "Trapezoidal") else 2 if big else 4):
+            count += 1
+            if rng.random() < 0.6:
+                s0 = rng.choice([0.0, PI / 2, PI, -PI / 2, -PI, 2 * PI, -2 * PI, 3 * PI, 3 * PI / 2, -3 * PI / 2, rng.uniform(-7.0, 7.0), rng.uniform(-7.0, 7.0)])
+                w = rng.choice([PI / 2, PI, 2 * PI, 2 * PI, 2 * PI, 3 * PI, 4 * PI, rng.uniform(0.3, 6.0), rng.uniform(0.3, 6.0)])
+                f1, f2 = s0, s0 + w
+            else:
+                k1 = rng.randrange(-4, 7); k2 = k1 + rng.choice([1, 2, 4, 4, 4, 6, 8])
+                f1, f2 = k1 * PI / 2, k2 * PI / 2
+            c1, c2 = rng.choice([(-1.0, 1.0), (-1.0, 1.0), (0.0, 1.0), (-1.0, 0.0), (-0.5, 0.5), (0.0, 0.5)] + [tuple(sorted((rng.uniform(-1.0, 0.3), rng.uniform(0.4, 1.0))))])
+            o = count % 8 if rng.random() < 0.7 else rng.randrange(8)
+            if o & 2: c1, c2 = c2, c1
+            if (o & 4) or (count % 3 == 0): f1, f2 = f2, f1
+            r1 = rng.uniform(0.0, 1.0) if rng.random() < 0.8 else 0.0
+            r2 = r1 + rng.uniform(0.5, 1.5)
+            if o & 1: r1, r2 = r2, r1
+            p = P(method, rng.random() < 0.4)
+            if method == "Gauss-Legendre_2" and p > 31: p = 24
+            radial = method in ("Adaptive-Simpson", "Trapezoidal") or rng.random() < 0.5
+            tags = ("spherical", method, "angular-range", "full-turn" if abs(abs(f2 - f1) - 2 * PI) < 1e-9 else "turns" if abs(f2 - f1) > 2 * PI else "sub")
+            if radial:
+                kind = rng.choice(["expdec", "rational", "gauss", "mono"])
+                g = {"expdec": Fac("expdec", rng.uniform(0.3, 1.5)), "rational": Fac("rational", rng.uniform(0.1, 2.0)),
+                     "gauss": Fac("gauss", rng.uniform(0.5, 3.0), 0.0), "mono": Fac("mono", rng.choice([1.0, 2.0]), rng.choice([0, 1]))}[kind]
+                cs.append(Case(f"spherical {method} {p} {hx(r1)} {hx(r2)} {hx(c1)} {hx(c2)} {hx(f1)} {hx(f2)} {g.text(NORM)} # sphr {g.ann()}", tags + ("radial",)))
+            else:
+                co = [rng.uniform(0.5, 2.0) * rng.choice([-1, 1]) for _ in range(3)] + [rng.uniform(3.0, 6.0)]
+                txt = f"+ * c {hx(co[0])} x + * c {hx(co[1])} y + * c {hx(co[2])} z c {hx(co[3])}"
+                cs.append(Case(f"spherical {method} {p} {hx(r1)} {hx(r2)} {hx(c1)} {hx(c2)} {hx(f1)} {hx(f2)} {txt} # sphd " + " ".join(hx(x) for x in co), tags + ("directional",)))
+    return cs
+
+
+# ---- call histories: several calls made one after the other by one process (each answer is compared with the answer of the same call in a process
+#      that has made no other call, with the model, and with the closed form): numbers of points of Gauss-Legendre_2 that are equal, adjacent, multiples,
+#      or equal in their low bits (coarse before fine and fine before coarse), on the same and on different intervals and integrands; default against
+#      explicit parameters; every method after every other; recursion depths of Gauss-Kronrod; the entry points mixed; a call with equal limits or a
+#      re-entrant call first; the same call repeated
+def gen_sessions(rng, big, P):
+    cs = []
+
+    def c1(method, p, a, b, f, re=None):
+        if re is None: return (f"named1d {method} {p} {hx(a)} {hx(b)} {f.text('x')}", f"1d {f.ann()}")
+        return (f"named1d {method} {p} {hx(a)} {hx(b)} {product_text([f], 'x', re)}", f"1d@ {re_ann(re)} {f.ann()}")
+
+    def c2(method, p, lims, facs):
+        flat = " ".join(hx(x) for lm in lims for x in lm)
+        return (f"nested{len(lims)}d {method} {p} {flat} {product_text(facs, 'xyz'[:len(lims)])}", "nd " + " ".join(f.ann() for f in facs))
+
+    def csph(method, p, lim, g):
+        return (f"spherical {method} {p} " + " ".join(hx(x) for x in lim) + f" {radial_text(g)}", f"sphr {g.ann()}")
+
+    def emit(calls, *tags):
+        cs.append(Case(f"session {len(calls)} " + " ;; ".join(b for b, _ in calls) + " # " + " ;; ".join(a for _, a in calls), ("session",) + tags))
+
+    def interval():
+        a, b = limits(rng, rng.randrange(3), rng.random() < 0.6)
+        if rng.random() < 0.3: a, b = a - 3.0, b - 3.0
+        return a, b
+
+    GL2 = "Gauss-Legendre_2"
+    for rep in range(4 if big else 1):
+        # numbers of points that agree in their low k bits, k = 3..8 (and differ by small multiples of 2^k)
+        for k in range(3, 9):
+            n = rng.randint(1, 12); fine = n + rng.choice([1, 1, 2, 3]) * 2 ** k
+            for order in ((0, 1) if big else (0,) if k != rng.randrange(3, 9) else (0, 1)):
+                a, b = interval(); f = rand_fac(rng, a, b)
+                seq = [c1(GL2, n, a, b, f), c1(GL2, fine, a, b, f)]
+                if rng.random() < 0.4:
+                    a2, b2 = interval(); seq.append(c1(GL2, fine, b2, a2, rand_fac(rng, a2, b2)))
+                emit(seq[::-1] if order else seq, "points-low-bits", "coarse-first" if not order else "fine-first")
+        # adjacent, double, equal numbers of points; the default against the explicit 30
+        n = rng.randint(20, 40)
+        for pair in ((n, n + 1), (n + 1, n), (n, 2 * n), (2 * n, n), (n, n), (0, 30), (30, 0), (0, 30 + 2 ** rng.randrange(3, 9)), (30 + 2 ** rng.randrange(3, 9), 0), (rng.randint(1, 12), 30, 0)):
+            if not big and rng.random() < 0.5: continue
+            a, b = interval(); f = rand_fac(rng, a, b)
+            emit([c1(GL2, q, a, b, f) for q in pair], "points-related")
+        # the same number of points on different intervals and integrands, then the first call again
+        for _ in range(2):
+            n = rng.choice([0, 20, 24, 31, 40, 64]); a, b = interval(); f = rand_fac(rng, a, b); a2, b2 = interval(); f2 = rand_fac(rng, a2, b2)
+            emit([c1(GL2, n, a, b, f), c1(GL2, n, b2, a2, f2), c1(GL2, n, a, b, f)], "same-points-other-interval")
+        # every method after the others, on one integrand and interval
+        for _ in range(2):
+            a, b = interval(); f = rand_fac(rng, a, b, positive=True)
+            order = list(METHODS); rng.shuffle(order)
+            emit([c1(m, P(m, rng.random() < 0.4), a, b, f) for m in order], "methods-mixed")
+        # recursion depths of Gauss-Kronrod, shallow then deep and deep then shallow
+        for pair in ((1, 15), (15, 1), (0, 8), (2, 0)):
+            if not big and rng.random() < 0.5: continue
+            a, b = interval(); f = rand_fac(rng, a, b)
+            emit([c1("Gauss-Kronrod", q, a, b, f) for q in pair], "depths")
+        # the entry points mixed
+        for method in ((GL2, "Gauss-Legendre", "Gauss-Kronrod", "Adaptive-Simpson") if big else (GL2, rng.choice(["Gauss-Legendre", "Gauss-Kronrod", "Adaptive-Simpson"]))):
+            pos = method == "Adaptive-Simpson"
+            ns = [rng.choice([20, 24, 31]) for _ in range(4)] if method == GL2 else [P(method, rng.random() < 0.4) for _ in range(4)]
+            a, b = interval(); f = rand_fac(rng, a, b, positive=pos)
+            lims = [limits(rng, k, rng.random() < 0.6) for k in range(2)]; facs = [rand_fac(rng, *lims[k], positive=pos) for k in range(2)]
+            r1 = rng.uniform(0.1, 1.0); r2 = r1 + rng.uniform(0.5, 1.5); c1_ = rng.uniform(-1.0, 0.5); c2_ = rng.uniform(c1_ + 0.2, 1.0); f1 = rng.uniform(0.0, 4.0); f2 = rng.uniform(f1 + 0.3, 6.28)
+            g = rng.choice([Fac("expdec", rng.uniform(0.3, 1.5)), Fac("rational", rng.uniform(0.1, 2.0))])
+            seq = [c1(method, ns[0], a, b, f), c2(method, ns[1], lims, facs), csph(method, ns[2], (r2, r1, c1_, c2_, f2, f1), g), c1(method, ns[3], b, a, f)]
+            if rng.random() < 0.5: seq[0], seq[1] = seq[1], seq[0]
+            emit(seq, "entry-points-mixed", method)
+        # a call with equal limits first; a re-entrant call (coarse rule inside) first
+        a, b = interval(); f = rand_fac(rng, a, b); m = rng.choice(METHODS)
+        emit([c1(m, 0, a, a, f), c1(m, 0, a, b, rand_fac(rng, a, b, positive=True))], "equal-limits-first")
+        a, b = interval(); f = rand_fac(rng, a, b); x0 = rng.uniform(min(a, b), max(a, b)); nin = rng.randint(2, 12)
+        emit([c1(GL2, rng.choice([0, 24]), a, b, f, (0, x0, GL2, nin)), c1(GL2, nin + 2 ** rng.randrange(3, 9), a, b, f), c1(GL2, 0, a, b, f, (0, x0, "Gauss-Kronrod", 0))], "reentrant-first")
+        # the same call three times
+        for m in (METHODS if big else rng.sample(METHODS, 3)):
+            a, b = interval(); f = rand_fac(rng, a, b, positive=True); q = P(m, rng.random() < 0.5)
+            emit([c1(m, q, a, b, f)] * 3, "repeated", m)
     return cs
 
 
